@@ -125,7 +125,8 @@ fn obs_edit(kind: &str, item: &Item) -> J {
             None => iter.clone(),
         },
     };
-    json!({"len": len, "empty": empty, "iter": iter, "owned": owned, "iter_mut": iter_mut, "get": get, "has": has, "printed": printed_keys(item)})
+    let rev: Vec<J> = iter.iter().rev().cloned().collect();
+    json!({"len": len, "empty": empty, "iter": iter, "owned": owned, "iter_mut": iter_mut, "rev": rev, "get": get, "has": has, "printed": printed_keys(item)})
 }
 
 fn apply_edit(kind: &str, item: &mut Item, o: &J) -> i64 {
@@ -288,7 +289,22 @@ fn obs_map(m: &toml::map::Map<String, toml::Value>) -> J {
     printed.sort();
     let owned: Vec<J> = m.clone().into_iter().map(|(k, v)| json!([k, idv(&v)])).collect();
     let iter_mut: Vec<J> = m.clone().iter_mut().map(|(k, v)| json!([k, idv(v)])).collect();
-    json!({"len": if consistent { m.len() } else { usize::MAX }, "empty": m.is_empty(), "iter": iter, "owned": owned, "iter_mut": iter_mut, "get": get, "has": has, "printed": printed})
+    // the iterators are double-ended: from the back they give the same entries in reverse; mixed ends meet
+    let mut rev: Vec<J> = m.iter().rev().map(|(k, v)| json!([k, idv(v)])).collect();
+    let krev: Vec<&String> = m.keys().rev().collect();
+    let kfwd: Vec<&String> = m.keys().collect();
+    if krev.iter().rev().cloned().collect::<Vec<_>>() != kfwd || m.values().rev().count() != m.len() {
+        rev.push(json!(["<<keys/values from the back disagree>>", 0]));
+    }
+    let mut it = m.iter();
+    if m.len() >= 2 {
+        let first = it.next().map(|(k, _)| k.clone());
+        let last = it.next_back().map(|(k, _)| k.clone());
+        if first.as_ref() != kfwd.first().cloned() || last.as_ref() != kfwd.last().cloned() {
+            rev.push(json!(["<<next / next_back disagree>>", 0]));
+        }
+    }
+    json!({"len": if consistent { m.len() } else { usize::MAX }, "empty": m.is_empty(), "iter": iter, "owned": owned, "iter_mut": iter_mut, "rev": rev, "get": get, "has": has, "printed": printed})
 }
 
 fn apply_map(m: &mut toml::map::Map<String, toml::Value>, o: &J) -> i64 {
@@ -483,7 +499,7 @@ pub fn hist_events(args: &Args) {
                 }
                 Err(_) => {
                     step["ret"] = json!(-9);
-                    step["obs"] = json!({"len": 0, "empty": true, "iter": [], "owned": [], "iter_mut": [], "get": {}, "has": {}, "printed": []});
+                    step["obs"] = json!({"len": 0, "empty": true, "iter": [], "owned": [], "iter_mut": [], "rev": [], "get": {}, "has": {}, "printed": []});
                     step["panic"] = json!(true);
                     steps.push(step);
                     break;
